@@ -245,7 +245,7 @@ def rand_cli(rng):
             argv.append("-j")
             c["j"] = True
         if not js and rng.random() < 0.25:
-            repl = rng.choice([b"/", b"::", b""]) if not M else b"/"
+            repl = rng.choice([b"/", b"::", b"", c["d"]]) if not M else rng.choice([b"/", c["d"]])
             argv += ["-r", repl.decode()]
     elif mode == "l":
         if rng.random() < 0.2:
